@@ -675,6 +675,32 @@ pub enum TextSpace {
     Pairs {
         exprs: std::sync::Arc<Vec<String>>,
     },
+    /// Programs whose diagnostics quote long non-ASCII source text.
+    Messages,
+}
+
+pub fn p_messages() -> Value {
+    json!({"space": "messages"})
+}
+
+/// Programs whose diagnostics quote source text: an annotation that repeats a YAML key made
+/// of d two-byte (or four-byte) characters, at both byte alignments, so that messages of every
+/// length around the usual cut-off lengths (80, 100, 120, 128, 255, 256 bytes) are produced
+/// with a multi-byte character on every byte position.
+fn message_texts() -> Vec<(String, String)> {
+    let mut out = Vec::new();
+    for (ch, name) in [("\u{e9}", "two-byte"), ("\u{1F609}", "four-byte")] {
+        for lead in ["", "k", "kk", "kkk"] {
+            for d in (1..=140).filter(|d| *d <= 70 || d % 5 == 0) {
+                let key = format!("{lead}{}", ch.repeat(d));
+                out.push((
+                    format!("# {key}: 1, {key}: 2\nlet a = num;\nres / on get -> <a>;\n"),
+                    format!("annotation repeating a key of {lead:?} + {d} {name} characters"),
+                ));
+            }
+        }
+    }
+    out
 }
 
 pub fn p_pairs() -> Value {
@@ -937,6 +963,7 @@ impl TextSpace {
                 TextSpace::Prefix { progs, total }
             }
             "numbers" => TextSpace::Numbers,
+            "messages" => TextSpace::Messages,
             "pairs" => TextSpace::Pairs { exprs: std::sync::Arc::new(pair_exprs()) },
             "nest" => TextSpace::Nest {
                 cases: nest_cases(p["thorough"].as_bool().unwrap_or(false)),
@@ -961,6 +988,7 @@ impl TextSpace {
             TextSpace::Prefix { total, .. } => *total,
             TextSpace::Numbers => number_texts().len() as u64,
             TextSpace::Pairs { exprs } => (exprs.len() * exprs.len() * PAIR_CONTEXTS.len()) as u64,
+            TextSpace::Messages => message_texts().len() as u64,
         }
     }
 
@@ -1010,6 +1038,7 @@ impl TextSpace {
             TextSpace::Unparen { texts } => texts[idx as usize].clone(),
             TextSpace::Imports => import_texts()[idx as usize].clone(),
             TextSpace::Numbers => number_texts()[idx as usize].clone(),
+            TextSpace::Messages => message_texts()[idx as usize].clone(),
             TextSpace::Pairs { exprs } => {
                 let n = exprs.len() as u64;
                 let (c, rest) = ((idx / (n * n)) as usize, idx % (n * n));
